@@ -292,7 +292,8 @@ def build_cm_docs(s, cfg, foreign, extra, tier):
     for kind, n in extra:
         if wit is not None and kind.startswith(('valid-walk', 'mut-')):
             seq = [c.key() for c in n.elems()]
-            if len(seq) <= 40 and wit(seq) != tm.content_ok(seq): dis += 1; continue
+            # backtracking `re` is exponential on nested nullable repetitions: the second witness is only asked about short sequences
+            if len(seq) <= 10 and wit(seq) != tm.content_ok(seq): dis += 1; continue
         docs.append((kind, n))
     return orc, docs, L, dis, wit is not None, excl
 
